@@ -25,6 +25,10 @@ Legacy CSV rule files (merchant_categories.csv) are modelled like `.rules` files
 rows, else regex oracle on the upper-cased description + `Migrate.checkAll` on exact doubles; `_resolve_dynamic_tags`;
 `Rules.legacy`), and a dedicated legacy stream writes such files against the statement lines the sources carry.
 `_is_expression_pattern` is additionally compared densely with `Pipeline.isExpressionPattern` (op `legacyshape`).
+Tagged stream: the rules (legacy CSV and .rules alike) are keyword rows with tags; the GENERATOR knows which rows match which
+statement lines and what tags they carry, so the implementation-only oracle requires the tags of every merchant, the figure each
+amount lands in (income / investment / transfers / spending / credits; JSON summary and the HTML report) and the selection of the
+`"t" in tags` views — not only counts and sums.
 PARTIAL: argparse, YAML loading and printing are exercised but not modelled.
 """
 import datetime
@@ -412,7 +416,7 @@ def gen_budget(r, focus=None):
     import yaml
     files['config/settings.yaml'] = yaml.safe_dump(settings, sort_keys=False)
     return {'files': files, 'kind': kind, 'states': states, 'ghost': ghost, 'expect': {'count': len(expect), 'sum_cents': sum(e['cents'] for e in expect),
-                                                       'probe': probe if mode == 'first_match' else None}}
+                                                       'probe': probe if mode == 'first_match' else None, 'rows': expect}}
 
 
 # ---- legacy stream: budgets whose rules are a merchant_categories.csv written to meet the statement lines the sources carry -----------
@@ -469,6 +473,117 @@ def gen_legacy_budget(r):
     b['kind'] = 'csv'
     b['stream'] = 'legacy'
     b['expect'] = dict(b['expect'], probe=None)
+    return b
+
+
+# ---- tagged stream: which rule rows match which statement lines, and which tags they carry, is GENERATOR TRUTH -------------------
+# The rules (a legacy merchant_categories.csv or a merchants.rules, drawn alike) are rows `keyword [amount > 100] → merchant, category,
+# tags`: a row matches a statement line iff the keyword occurs in its description (letters compared without case) and, when the row has
+# the amount condition, the amount exceeds 100.  Tags are what the rule file exists for beyond the category: a transaction carries
+# the (lower-cased) tags of EVERY row that matches it; `income` / `investment` / `transfer` decide which figure of the report its amount
+# lands in; a view whose filter is `"t" in tags` selects the merchants that carry t.  None of this is computed with tally's code.
+TAG_KEYWORDS = ['UBER', 'EATS', 'NETFLIX', 'AMAZON', 'COSTCO', 'STARBUCKS', 'ACME PAYROLL', 'TRANSFER', 'SAVINGS', 'SHELL', 'TRADER',
+                'LYFT', 'TARGET', 'TRIP', 'OIL', 'Uber', 'netflix', 'Payroll']
+TAG_SPECIAL = ['income', 'transfer', 'investment', 'Income', 'TRANSFER', 'Investment']
+TAG_PLAIN = ['food', 'Business', 'essentials', 'recurring', 'x y', 'Travel', 'tax-2025']
+SPECIAL = ('income', 'investment', 'transfer')
+
+
+def tag_truth(rows, lines, per_merchant=True):
+    """generator truth for a tagged budget: `rows` = the rule rows in file order, `lines` = the well-formed statement lines
+    ({'description', 'cents'}).  Returns the figures of the report that tags govern (in cents) and, per rule merchant, count /
+    tags / category / total; plus, per tag, the merchants named by a rule that carry it and those that carry it and no special tag."""
+    fig = {k: 0 for k in ('income', 'investment', 'transfers_in', 'transfers_out', 'spending', 'credits')}
+    merchants, unnamed_tagged = {}, 0
+    for ln in lines:
+        hit = [w for w in rows if w['keyword'].upper() in ln['description'].upper() and (not w['over_100'] or ln['cents'] > 10000)]
+        tags = sorted({t.lower() for w in hit for t in w['tags']})
+        c = ln['cents']
+        if 'income' in tags:
+            fig['income'] += abs(c)
+        elif 'investment' in tags:
+            fig['investment'] += abs(c)
+        elif 'transfer' in tags:
+            fig['transfers_in' if c > 0 else 'transfers_out'] += abs(c)
+        else:
+            fig['spending' if c > 0 else 'credits'] += abs(c)
+        first = next((w for w in hit if w['category']), None)
+        if first is None:
+            unnamed_tagged += bool(tags)
+            continue
+        m = merchants.setdefault(first['merchant'], {'category': first['category'], 'subcategory': first['subcategory'], 'count': 0,
+                                                     'tags': set(), 'cents': 0})
+        m['count'] += 1
+        m['tags'].update(tags)
+        m['cents'] += abs(c) if ('income' in tags or 'investment' in tags) else c
+    for m in merchants.values():
+        m['tags'] = sorted(m['tags'])
+    return {'figures_cents': fig, 'merchants': merchants, 'lines_tagged_but_uncategorised': unnamed_tagged}
+
+
+def gen_tagged_budget(r, kind=None):
+    """a budget of the ordinary stream (sources, settings, file names and file states as there) whose rules are 3–7 keyword rows with
+    tags, written EITHER as a legacy merchant_categories.csv (Tags column, `|`-separated, `[amount>100]` modifier) OR as a
+    merchants.rules (`tags:` line, `contains("…") and amount > 100`), and a views file with one `"t" in tags` view per plain tag.
+    At least one row with a special tag and one with a plain tag hit a statement line the sources carry."""
+    import yaml
+    for _ in range(40):
+        b = gen_budget(r)
+        lines = b['expect']['rows']
+        if len(lines) >= 2:
+            break
+    st = yaml.safe_load(b['files']['config/settings.yaml'])
+    for k in ('config/merchants.rules', 'config/merchant_categories.csv'):
+        b['files'].pop(k, None)
+    st.pop('merchants_file', None)
+    kind = kind or r.choice(['csv', 'rules'])
+    present = [k for k in TAG_KEYWORDS if any(k.upper() in ln['description'].upper() for ln in lines)] or TAG_KEYWORDS
+    rows = []
+    n = r.choice([3, 4, 5, 7])
+    for i in range(n):
+        kw = r.choice(present) if (i < 2 or r.random() < 0.7) else r.choice(TAG_KEYWORDS)
+        tag_only = i >= 2 and r.random() < 0.25
+        cat = r.choice(GR.CATS)
+        if i == 0:
+            tags = [r.choice(TAG_SPECIAL)] + r.sample(TAG_PLAIN, r.choice([0, 0, 1]))
+        elif i == 1:
+            tags = r.sample(TAG_PLAIN, r.choice([1, 2]))
+        else:
+            tags = r.sample(TAG_PLAIN, r.choice([0, 1, 2])) + ([r.choice(TAG_SPECIAL)] if r.random() < 0.3 else [])
+        if tag_only and not tags:
+            tags = [r.choice(TAG_PLAIN)]
+        r.shuffle(tags)
+        rows.append({'keyword': kw, 'over_100': i >= 2 and r.random() < 0.25, 'merchant': f'M{i} {kw.title()}',
+                     'category': '' if tag_only else cat[0], 'subcategory': '' if tag_only else cat[1], 'tags': tags})
+    r.shuffle(rows)
+    if kind == 'csv':
+        b['files']['config/merchant_categories.csv'] = GR.render_csv_rules(
+            [(w['keyword'] + ('[amount>100]' if w['over_100'] else ''), w['merchant'], w['category'], w['subcategory'], '|'.join(w['tags'])) for w in rows])
+    else:
+        b['files']['config/merchants.rules'] = GR.render_rules({'variables': {}, 'transforms': [], 'rules': [
+            dict({'name': w['merchant'], 'match': 'contains("%s")' % w['keyword'] + (' and amount > 100' if w['over_100'] else '')},
+                 **({'category': w['category'], 'subcategory': w['subcategory']} if w['category'] else {}),
+                 **({'tags': w['tags']} if w['tags'] else {})) for w in rows]})
+        st['merchants_file'] = 'config/merchants.rules'
+    # rule_mode: the legacy file has no modes; for a .rules file the per-merchant truth below is the first-match reading
+    mode = r.choice(['first_match', 'first_match', 'first_match', 'most_specific'])
+    st.pop('rule_mode', None)
+    if mode != 'first_match' or r.random() < 0.2:
+        st['rule_mode'] = mode
+    plain = sorted({t.lower() for w in rows for t in w['tags']} - set(SPECIAL))
+    views = plain[:] if plain else []
+    if views:
+        b['files']['config/views.rules'] = ''.join('[Tagged %s]\nfilter: "%s" in tags\n\n' % (t, t if r.random() < 0.7 else t.upper()) for t in views)
+        st['views_file'] = 'config/views.rules'
+    else:
+        b['files'].pop('config/views.rules', None)
+        st.pop('views_file', None)
+    b['files']['config/settings.yaml'] = yaml.safe_dump(st, sort_keys=False)
+    truth = tag_truth(rows, lines)
+    b['kind'] = kind
+    b['stream'] = 'tagged'
+    b['expect'] = dict(b['expect'], probe=None)
+    b['tagged'] = {'rows': rows, 'views': views, 'per_merchant': kind == 'csv' or mode == 'first_match', 'truth': truth}
     return b
 
 
@@ -802,6 +917,87 @@ def spec_oracle(budget, whole):
     return fails
 
 
+def run_up_html(budget):
+    """the default (HTML) report of the budget, fresh process; returns the `window.spendingData` object embedded in it"""
+    d = tempfile.mkdtemp(prefix='tvuph_')
+    try:
+        write_budget(d, budget)
+        env = dict(os.environ, PYTHONPATH=os.path.join(common.REPO, 'src'), NO_COLOR='1', PYTHONDONTWRITEBYTECODE='1')
+        out = os.path.join(d, 'tv_report.html')
+        p = subprocess.run([sys.executable, '-m', 'tally', 'up', 'config', '-q', '-o', out], cwd=d, env=env,
+                           stdin=subprocess.DEVNULL, stdout=subprocess.PIPE, stderr=subprocess.PIPE, text=True, timeout=120)
+        if p.returncode != 0 or not os.path.exists(out):
+            return {'exit': p.returncode, 'stderr': p.stderr[-300:]}
+        html = open(out, encoding='utf-8').read()
+        mark = 'window.spendingData = '
+        at = html.find(mark)
+        if at < 0:
+            return {'exit': 0, 'unparsed': 'no spendingData in the HTML report'}
+        try:
+            return {'data': json.JSONDecoder().raw_decode(html, at + len(mark))[0]}
+        except Exception as e:
+            return {'exit': 0, 'unparsed': str(e)[:200]}
+    finally:
+        shutil.rmtree(d, ignore_errors=True)
+
+
+def tag_oracle(budget, whole):
+    """generator truth for TAGS and for what tags govern (tagged stream): the tags of every merchant named by a rule row are the
+    lower-cased tags of all rows that match its statement lines; amounts land in income / investment / transfers in / out /
+    spending / credits by those tags (JSON summary and the HTML report's cards); a `"t" in tags` view selects the merchants that
+    carry t (all those without a special tag at least; none that does not carry t)"""
+    tg = budget.get('tagged')
+    if not tg or 'json' not in whole:
+        return []
+    truth = tg['truth']
+    j = whole['json']
+    fails = []
+    what = 'legacy-csv' if budget.get('kind') == 'csv' else 'rules-file'
+
+    def fail(cls, **kw):
+        fails.append(dict({'class': cls + ':' + what, 'budget': budget, 'rule_rows': tg['rows']}, **kw))
+
+    got = {m['name']: m for m in j['merchants']}
+    if tg['per_merchant']:
+        for name, want in truth['merchants'].items():
+            g = got.get(name)
+            if g is None or g['count'] != want['count'] or (g['category'], g['subcategory']) != (want['category'], want['subcategory']):
+                fail('merchant-of-a-matching-rule-wrong', merchant=name, required=want,
+                     observed=None if g is None else {k: g[k] for k in ('count', 'category', 'subcategory', 'tags', 'total')})
+            elif sorted(g['tags']) != want['tags']:
+                fail('tags-of-the-matching-rules-not-on-the-merchant', merchant=name, required_tags=want['tags'], observed_tags=sorted(g['tags']))
+            elif abs(g['total'] - want['cents'] / 100) > 0.006:
+                fail('merchant-total-not-by-its-tags', merchant=name, required_total=want['cents'] / 100, observed_total=g['total'], tags=want['tags'])
+    f = truth['figures_cents']
+    s = j['summary']
+    obs = {'income': s['income_total'], 'transfers_in': s['transfers_in'], 'transfers_out': s['transfers_out'], 'spending': s['spending_total'],
+           'credits': s['credits_total']}
+    bad = {k: {'observed': v, 'required': f[k] / 100} for k, v in obs.items() if abs(v - f[k] / 100) > 0.006}
+    if bad:
+        fail('amounts-not-in-the-figure-their-tags-say', figures=bad)
+    html = run_up_html(budget)
+    if 'data' not in html:
+        fail('html-report-missing', observed=html)
+        return fails
+    d = html['data']
+    obs = {'income': d.get('incomeTotal'), 'investment': d.get('investmentTotal'), 'transfers_in': d.get('transfersIn'),
+           'transfers_out': d.get('transfersOut'), 'spending': d.get('spendingTotal'), 'credits': d.get('creditsTotal')}
+    bad = {k: {'observed': v, 'required': f[k] / 100} for k, v in obs.items() if not isinstance(v, (int, float)) or abs(v - f[k] / 100) > 0.006}
+    if bad:
+        fail('amounts-not-in-the-figure-their-tags-say:html', figures=bad)
+    if tg['per_merchant']:
+        secs = {v.get('title'): sorted(m.get('displayName') for m in v.get('merchants', {}).values()) for v in d.get('sections', {}).values()}
+        named = truth['merchants']
+        for t in tg['views']:
+            sel = secs.get('Tagged ' + t, [])
+            carry = sorted(n for n, m in named.items() if t in m['tags'])
+            must = sorted(n for n, m in named.items() if t in m['tags'] and not set(SPECIAL) & set(m['tags']))
+            if [n for n in must if n not in sel] or [n for n in sel if n in named and n not in carry]:
+                fail('tag-view-selects-the-wrong-merchants', view='"%s" in tags' % t, selected=sel, required_at_least=must,
+                     required_at_most_among_rule_merchants=carry)
+    return fails
+
+
 def neutral_oracle(r, budget, whole):
     """adding a source whose file is missing, a source whose file is there but unreadable / hollow, or a supplemental source nobody
     queries (readable or not) changes nothing: the run completes and every figure of the other sources stays"""
@@ -853,6 +1049,7 @@ def run(ctx):
         budgets = [gen_budget(r, focus='damaged-supplemental' if i % 10 == 7 else None) for i in range(n)]
         budgets += [gen_legacy_budget(r) for _ in range(30 if ctx.quick else 800)]     # drawn AFTER the ordinary stream: that one is unchanged
         budgets += [gen_transform_budget(r) for _ in range(6 if ctx.quick else 100)]
+        budgets += [gen_tagged_budget(r, kind=('csv', 'rules')[i % 2]) for i in range(16 if ctx.quick else 400)]    # drawn last, as above
     with ThreadPoolExecutor(max_workers=16) as ex:
         impls = list(ex.map(run_up, budgets))
     prop_fail, corr_fail = [], []
@@ -911,6 +1108,8 @@ def run(ctx):
         for fl in ex.map(lambda i: locality_oracle(budgets[i], impls[i]) + neutral_oracle(r, budgets[i], impls[i]), sel):
             prop_fail.extend(fl)
             nor += 1
+        for fl in ex.map(lambda i: tag_oracle(budgets[i], impls[i]), [i for i in range(len(budgets)) if budgets[i].get('tagged')]):
+            prop_fail.extend(fl)
     ctx.cov['evaluations'] = len(budgets) + nor * 4
     ctx.cov['traces_validated_against_impl'] = len(mcases) - unmodelled
     ctx.cov['distinct_nontrivial'] = sum(1 for b, im in zip(budgets, impls) if 'json' in im and len(im['json']['merchants']) >= 2
@@ -926,6 +1125,11 @@ def run(ctx):
                        'expressions (over amount, date parts, source, captured columns, the supplemental rows), cells that only look like expressions, cells `re` '
                        'rejects, static / dynamic / blank / duplicate / falsy / padded tags, tag-only tuples, repeated cells. Transform stream: a .rules '
                        'budget whose field transform names the supplemental source (must be skipped). '
+                       'Tagged stream (drawn last; half legacy CSV, half .rules): 3–7 keyword rows with tags ([amount>100] / `and amount > 100` on some, tag-only '
+                       'rows, special tags income / investment / transfer in several spellings, plain tags) and one `"t" in tags` view per plain tag; which '
+                       'row matches which statement line and what tags it carries is generator truth: required are the tags, count, category and total of '
+                       'every merchant a row names, the income / investment / transfers in / out / spending / credits figures (JSON summary and the cards of the '
+                       'HTML report, second run), and the merchants each tag view selects (counts in coverage.tagged_stream). '
                        'Unreadable-file stream: an ordinary source file (12 %) or the queried supplemental file (30 %) is replaced by what a user '
                        'ends up with — Latin-1 / Windows-1252 / UTF-16 bytes, binary junk (zip / pdf magic + NULs + invalid UTF-8), a directory, a '
                        'mode-000 file (only when not root; a directory otherwise), a 0-byte or header-only file — or carries a UTF-8 BOM (15 % of '
@@ -974,8 +1178,28 @@ def run(ctx):
     ctx.notes['extra_source_neutrality_runs'] = dict(sorted(gs.items()))
     ctx.notes['permission_denied_testable'] = os.geteuid() != 0
     ctx.notes['budgets_by_rules_kind'] = {k: sum(1 for b in budgets if b.get('kind') == k) for k in ('rules', 'csv', 'none')}
-    ctx.notes['budgets_by_stream'] = {k: sum(1 for b in budgets if b.get('stream', 'ordinary') == k) for k in ('ordinary', 'legacy', 'transform-names-supplemental')}
+    ctx.notes['budgets_by_stream'] = {k: sum(1 for b in budgets if b.get('stream', 'ordinary') == k) for k in ('ordinary', 'legacy', 'transform-names-supplemental', 'tagged')}
     ctx.notes['modelled_by_rules_kind'] = modelled_kinds
+    tstat = {}
+    for b, im in zip(budgets, impls):
+        tg = b.get('tagged')
+        if not tg:
+            continue
+        t = tstat.setdefault('legacy-csv' if b['kind'] == 'csv' else 'rules-file',
+                             {'budgets': 0, 'reports': 0, 'rule_rows': 0, 'statement_lines': 0, 'merchants_named_by_a_row': 0, 'merchants_with_tags': 0,
+                              'merchants_with_a_special_tag': 0, 'tag_views': 0, 'per_merchant_truth_checked': 0, 'cents_outside_spending_and_credits': 0})
+        t['budgets'] += 1
+        t['reports'] += 'json' in im
+        t['rule_rows'] += len(tg['rows'])
+        t['statement_lines'] += b['expect']['count']
+        ms = tg['truth']['merchants'].values()
+        t['merchants_named_by_a_row'] += len(ms)
+        t['merchants_with_tags'] += sum(1 for m in ms if m['tags'])
+        t['merchants_with_a_special_tag'] += sum(1 for m in ms if set(SPECIAL) & set(m['tags']))
+        t['tag_views'] += len(tg['views'])
+        t['per_merchant_truth_checked'] += bool(tg['per_merchant'])
+        t['cents_outside_spending_and_credits'] += sum(tg['truth']['figures_cents'][k] for k in ('income', 'investment', 'transfers_in', 'transfers_out'))
+    ctx.notes['tagged_stream'] = tstat
     ctx.notes['unmodelled_skipped'] = unmodelled
     ctx.notes['reports_produced'] = sum(1 for im in impls if 'json' in im)
     for b in budgets[:2]:
@@ -984,9 +1208,10 @@ def run(ctx):
     def search():
         out = []
         for i in range(150):
-            b = gen_legacy_budget(r) if i % 3 == 2 else gen_budget(r, focus='damaged-supplemental' if i % 5 == 2 else None)
+            b = (gen_tagged_budget(r) if i % 3 == 1 else gen_legacy_budget(r) if i % 3 == 2 else
+                 gen_budget(r, focus='damaged-supplemental' if i % 5 == 2 else None))
             w = run_up(b)
-            out.extend(spec_oracle(b, w) + locality_oracle(b, w) + neutral_oracle(r, b, w))
+            out.extend(spec_oracle(b, w) + locality_oracle(b, w) + neutral_oracle(r, b, w) + tag_oracle(b, w))
             if out:
                 break
         return out
@@ -995,7 +1220,9 @@ def run(ctx):
                     required='the report contains exactly the transactions of all non-supplemental sources, each read with its own settings and '
                              'classified by the configured rules; changing one source or setting changes only its share; a missing or unreadable source '
                              '(ordinary or supplemental) leaves the others intact and does not stop the run; `file:` names exactly one file, '
-                             'literally; the readable rows of a supplemental file are available to the rules whatever another row contains')
+                             'literally; the readable rows of a supplemental file are available to the rules whatever another row contains; '
+                             'a transaction carries the tags of every rule row that matches it (legacy CSV or .rules), its amount lands in the figure those '
+                             'tags say, and a tag view selects the merchants that carry the tag')
     return ctx.finish(extra_trusted=[
         'PARTIAL: argparse, YAML loading, path resolution and JSON printing are exercised end to end but not modelled',
         'tokenisation (csv.reader / regex) is taken from the implementation, as in C05',
